@@ -19,7 +19,7 @@ for p in props:
         "replay_cmd_template": "./check %s --replay {path}" % pid,
         "engine": "lean4-proof+correspondence",
         "level_claimed": {"category": "proof", "text": o.get("level_text", ""), "design_ref": "DESIGN.md §4 " + pid},
-        "level_note": o.get("level_note", "Trusted: Lean 4.33 kernel (axioms propext/Classical.choice/Quot.sound only, audited every run); the go/ast fact extractor (fails closed); the Go harness and the Lean oracle's line protocol. Hand-written model, tied to /repo on every run by the regenerated facts (Generated.lean) and the differential run. " + ("Theorem hypotheses: " + "; ".join(o.get("assumptions", [])) + ". " if o.get("assumptions") else "") + ("Partial: " + o["partial"] + ". " if o.get("partial") else "") + "Modelled, not verified: " + "; ".join(o.get("modelled_not_verified", [])[:4]) + "."),
+        "level_note": o.get("level_note", "Trusted: Lean 4.33 kernel (axioms propext/Classical.choice/Quot.sound only, audited every run); the go/ast fact extractor (fails closed); the Go harness and the Lean oracle's line protocol. Hand-written model, tied to /repo on every run by (1) Lean definitions regenerated from the Go source by the translator (GeneratedFns.lean) and proved equal to the model (Props/Gen), (2) regenerated facts (Generated.lean), (3) the differential run. " + ("True by construction of the model, not evidence on their own: " + ", ".join(t.split(".")[-1] for t in o["definitional"]["theorems"]) + " (" + o["definitional"]["note"] + "). " if o.get("definitional") else "") + ("Theorem hypotheses: " + "; ".join(o.get("assumptions", [])) + ". " if o.get("assumptions") else "") + ("Partial: " + o["partial"] + ". " if o.get("partial") else "") + "Modelled, not verified: " + "; ".join(o.get("modelled_not_verified", [])[:4]) + "."),
         "technique": o.get("technique", "Lean 4 theorem over a hand-written model + differential correspondence with the implementation"),
     })
 m = {
@@ -29,7 +29,7 @@ m = {
               "baseline_off_cmd": "cd /repo && GOFLAGS=-mod=mod GOPROXY=off GOSUMDB=off GOTOOLCHAIN=local go test -vet=off -count=1 ./...",
               "source_commits": json.load(open(os.path.join(V, "hook_commits.json"))), "add_only": True},
     "engines": [{"name": "lean4-proof+correspondence", "path": "/verif/check", "serves_properties": [c["property_id"] for c in checks],
-                 "kind_free_text": "Lean 4 model + property theorems (lake build, #print axioms audit), go/ast fact extractor regenerating Generated.lean, Go harness driving the real code against the compiled Lean oracle"}],
+                 "kind_free_text": "Lean 4 model + property theorems (lake build, #print axioms audit), Go->Lean translator regenerating GeneratedFns.lean with equivalence theorems, go/ast fact extractor regenerating Generated.lean, Go harness driving the real code against the compiled Lean oracle"}],
     "checks": checks,
     "not_applicable": na,
     "notes": "exit 2 = infrastructure error (no verdict). known findings: /verif/known_findings.json",
